@@ -1,3 +1,53 @@
-Require Import Base Opcode Tables Ops Tree Opt Flat Run.
-Example placeholder_C12 : True. Proof. exact I. Qed.
-Print Assumptions placeholder_C12.
+(* C12 — Event reporting observes evaluation faithfully without changing it.
+   Only statements; proofs in Proofs/EvalCorrectE.v, EvalTopE.v (and EvalTop.v for the plain program).
+
+   `compileE t` is the program with event nodes (ReportEvent / Debug): every node except the leaf operands of a
+   fast operator is preceded by its event node, jump targets and parents are those of the interleaved layout.
+   It is compared with the transliterated calAndSetEventNode pass (`eventize (compile t)`) and with Go's own
+   event-mode program on every correspondence case (codes 10 and 3). In the model an OP_EXEC event IS the
+   observation `OCall name fast args result` made when the operator is applied; a LOOP event is `OLoop`. *)
+Require Import Base Opcode Tables Ops Tree Opt Flat FlatE Run CompFacts EvalDefs EvalTop EvalCorrectE EvalTopE.
+Open Scope Z_scope.
+
+(* Eval of the event program: the result (value or the very error), the fetches and the OP_EXEC events —
+   operator name, fast flag, arguments at call time, result or error — in order, are exactly those of the
+   reference semantics, for EVERY tree, fetcher and registered-operator function; the LOOP events are the only
+   other observations. *)
+Theorem C12_event_program_is_sem : forall fetch custom t,
+  dl (eval fetch custom (compileE t)) = sem_obs (sem fetch custom t).
+Proof. exact run_compileE_correct. Qed.
+
+(* switching events on changes neither the result nor the operator applications nor the fetches *)
+Theorem C12_events_transparent : forall fetch custom t,
+  dl (eval fetch custom (compileE t)) = eval fetch custom (compile t).
+Proof. exact events_transparent. Qed.
+
+(* without event nodes no LOOP event is ever emitted *)
+Theorem C12_plain_no_loops : forall fetch custom t,
+  dl (eval fetch custom (compile t)) = eval fetch custom (compile t).
+Proof. exact plain_no_loops. Qed.
+
+(* the event program never writes outside the operand stack the engine allocates for it *)
+Theorem C12_event_alloc : forall t i nd, getn (compileE t) i = Some nd -> osTop nd < alloc (compileE t).
+Proof. exact compileE_alloc. Qed.
+
+(* non-vacuity: a short-circuit landing two levels up across event nodes, an `if`, a fast operator *)
+Definition ex_fetch (n : str) (k : Z) : res value :=
+  if str_eqb n (ss "a") then Ok (VBool true) else if str_eqb n (ss "b") then Ok (VBool false)
+  else if str_eqb n (ss "n") then Ok (VInt 4) else Err (EUser 7).
+Definition ex_custom (n : str) (a : list value) : res value := Err (EUser 9).
+Definition ex_tree : tree :=
+  TOp (ss "and") false
+    [TVar (ss "a") 1;
+     TOp (ss "or") false [TVar (ss "b") 2; TIf (TVar (ss "a") 1) (TOp (ss "<") true [TVar (ss "n") 3; TConst (VInt 5)]) (TVar (ss "boom") 4)];
+     TOp (ss "=") false [TConst (VInt 1); TVar (ss "boom") 4]].
+Example C12_ex_layout : compileE ex_tree = eventize (compile ex_tree).
+Proof. vm_compute. reflexivity. Qed.
+Example C12_ex_loops : length (fst (eval ex_fetch ex_custom (compileE ex_tree))) = 13%nat /\
+  fst (dl (eval ex_fetch ex_custom (compileE ex_tree))) =
+    [OGet (ss "a") 1; OGet (ss "b") 2; OGet (ss "a") 1; OGet (ss "n") 3;
+     OCall (ss "<") true [VInt 4; VInt 5] (Ok (VBool true)); OGet (ss "boom") 4].
+Proof. vm_compute. split; reflexivity. Qed.
+
+Print Assumptions C12_event_program_is_sem.
+Print Assumptions C12_events_transparent.
